@@ -1118,28 +1118,58 @@ def rule_gpt_helper(ctx: Ctx) -> None:
     fa = p.lookup_method(GPT, 'reduce_a_factor')
     fg = p.lookup_method(GPT, 'reduce_g_factor')
 
-    def body_norm(f: Func, swap: bool) -> str:
-        t = '\n'.join(norm(st) for st in f.body if not (isinstance(st, ast.Expr) and isinstance(st.value, ast.Constant)))
-        if swap:
-            t = t.replace('g_factor', '\0').replace('a_factor', 'g_factor').replace('\0', 'a_factor')
-            t = t.replace("'output'", '\0').replace("'input'", "'output'").replace('\0', "'input'")
-            # the if/elif order is irrelevant
-        return t
+    def effects(f: Func, par: str, primary: bool) -> list[str] | None:
+        """The reductions reduce_x_factor issues in the world (parallelism, this rank is the primary rank): a walk of
+        the body with the two kinds of test decided; None when a test of another kind guards a reduction."""
+        known = {"self.parallelism == 'input'": par == 'input', "self.parallelism == 'output'": par == 'output',
+                 "self.parallelism != 'input'": par != 'input', "self.parallelism != 'output'": par != 'output',
+                 'get_rank() == self.primary_rank': primary, 'get_rank() != self.primary_rank': not primary,
+                 'self.primary_rank == get_rank()': primary, 'self.primary_rank != get_rank()': not primary}
+        out: list[str] = []
+        unknown: list[str] = []
 
-    def branches(f: Func) -> dict[str, str]:
-        out = {}
-        for n in p.nodes(f):
-            if isinstance(n, ast.If) and 'self.parallelism ==' in norm(n.test):
-                out[norm(n.test)] = '\n'.join(norm(s_) for s_ in n.body)
-        return out
-    ba, bg = branches(fa), branches(fg)
-    swapped = {k.replace("'output'", '\0').replace("'input'", "'output'").replace('\0', "'input'"): v.replace('reduce_a_factor', 'reduce_g_factor') for k, v in ba.items()}
-    ctx.check(swapped == bg and len(bg) == 2, 'SIB-DUAL', fg, 'reduce_g_factor is reduce_a_factor with input/output swapped', 'dual',
-              f'reduce_a_factor handles {ba} but reduce_g_factor handles {bg}: they must be mirror images (sharded factor reduced by the primary on the data-parallel group, replicated factor by all stage peers)', fg.node)
-    want_a = {"self.parallelism == 'input'": 'if get_rank() != self.primary_rank:\n    return\nsuper().reduce_a_factor(self.data_parallel_group)',
-              "self.parallelism == 'output'": 'super().reduce_a_factor(self.pipe_parallel_peer_group)'}
-    ctx.check(ba == want_a, 'SIB-DUAL', fa, 'A: input-parallel -> primary on DP group; output-parallel -> stage peers', 'reduce_a_factor',
-              f'reduce_a_factor handles {ba}; specified {want_a}', fa.node)
+        def has_reduce(sts: list[ast.stmt]) -> bool:
+            return any(isinstance(n, ast.Call) and 'reduce_' in norm(n.func) for st in sts for n in ast.walk(st))
+
+        def truth(t: ast.expr) -> bool | None:
+            if isinstance(t, ast.UnaryOp) and isinstance(t.op, ast.Not):
+                v = truth(t.operand)
+                return None if v is None else not v
+            return known.get(norm(t))
+
+        def run(sts: list[ast.stmt]) -> bool:
+            for st in sts:
+                if isinstance(st, ast.If):
+                    v = truth(st.test)
+                    if v is None:
+                        if has_reduce(st.body) or has_reduce(st.orelse):
+                            unknown.append(norm(st.test))
+                            return True
+                        # validation (raises only): not part of the reduction protocol
+                        continue
+                    if run(st.body if v else st.orelse):
+                        return True
+                elif isinstance(st, (ast.Return, ast.Raise)):
+                    if isinstance(st, ast.Raise):
+                        out.append('raise')
+                    return True
+                elif isinstance(st, ast.Expr) and isinstance(st.value, ast.Call) and 'reduce_' in norm(st.value.func):
+                    out.append(norm(st.value))
+            return False
+        run([st for st in f.body if not (isinstance(st, ast.Expr) and isinstance(st.value, ast.Constant))])
+        return None if unknown else out
+    for f, X, shard_par in ((fa, 'a', 'input'), (fg, 'g', 'output')):
+        for par in ('input', 'output'):
+            for primary in (True, False):
+                got = effects(f, par, primary)
+                if par == shard_par:
+                    want = [f'super().reduce_{X}_factor(self.data_parallel_group)'] if primary else []
+                else:
+                    want = [f'super().reduce_{X}_factor(self.pipe_parallel_peer_group)']
+                alt = [w.replace('(self.', '(group=self.') for w in want]
+                ctx.check(got in (want, alt), 'SIB-DUAL', f, f'reduce_{X}_factor [{par}-parallel, primary={primary}]: {got}', f'reduce_{X}_factor {par} primary={primary}',
+                          f'reduce_{X}_factor on a{"" if primary else " non-"} primary rank of an {par}-parallel layer issues {got}; specified {want}: the sharded factor is reduced by the primary rank alone '
+                          'over the data-parallel group, the replicated factor by every rank of the stage over the stage peers (A and G are mirror images)', f.node)
 
 
 def rule_clip_shard(ctx: Ctx) -> None:
